@@ -35,7 +35,7 @@ def one(patch):
 if __name__ == '__main__':
     patches = sys.argv[1:]
     verbose = os.environ.get('V')
-    with ProcessPoolExecutor(16) as ex:
+    with ProcessPoolExecutor(int(os.environ.get("PE_JOBS", "16"))) as ex:
         for patch, row in ex.map(one, patches):
             name = '/'.join(Path(patch).parts[-3:])
             if row is None:
